@@ -6,6 +6,18 @@ import (
 )
 
 // C01 — Compare is a total preorder.
+//
+// Conditions with && / || live in small helper functions: the engine folds a helper's paths into
+// one term (merge at return), whereas a short-circuit operator in the harness body forks the
+// top-level path.
+
+func isSign(x int) bool { return x == -1 || x == 0 || x == 1 }
+
+func both(a, b bool) bool { return a && b }
+
+func transLe(ab, bc, ac int) bool { return !(ab <= 0 && bc <= 0) || ac <= 0 }
+
+func transLt(ab, bc, ac int) bool { return !(ab <= 0 && bc <= 0 && (ab < 0 || bc < 0)) || ac < 0 }
 
 func c01Pair[V univers.Version[V], VR univers.VersionRange[V]](e univers.Ecosystem[V, VR], a, b string) {
 	va, ea := e.NewVersion(a)
@@ -14,12 +26,13 @@ func c01Pair[V univers.Version[V], VR univers.VersionRange[V]](e univers.Ecosyst
 	vv.Assume(eb == nil)
 	x := va.Compare(vb)
 	y := vb.Compare(va)
-	vv.Assert(x == -1 || x == 0 || x == 1, "C01: Compare result not in {-1,0,1}")
+	vv.Assert(isSign(x), "C01: Compare result not in {-1,0,1}")
 	vv.Assert(x == -y, "C01: Compare(a,b) != -Compare(b,a)")
 	vv.Assert(va.Compare(va) == 0, "C01: Compare(a,a) != 0")
 	va2, ea2 := e.NewVersion(a)
 	vv.Assert(ea2 == nil, "C01: second parse of the same text fails")
-	vv.Assert(va.Compare(va2) == 0 && va2.Compare(vb) == x, "C01: a second parse of the same text compares differently")
+	vv.Assume(ea2 == nil)
+	vv.Assert(both(va.Compare(va2) == 0, va2.Compare(vb) == x), "C01: a second parse of the same text compares differently")
 }
 
 func c01Triple[V univers.Version[V], VR univers.VersionRange[V]](e univers.Ecosystem[V, VR], a, b, c string) {
@@ -29,9 +42,37 @@ func c01Triple[V univers.Version[V], VR univers.VersionRange[V]](e univers.Ecosy
 	vv.Assume(eb == nil)
 	vc, ec := e.NewVersion(c)
 	vv.Assume(ec == nil)
+	// the property's sole exclusion: alpm triples mixing versions with and without a pkgrel
+	vv.Assume(!c01AlpmMixedPkgrel(e.Name(), a, b, c))
 	ab := va.Compare(vb)
 	bc := vb.Compare(vc)
 	ac := va.Compare(vc)
-	vv.Assert(!(ab <= 0 && bc <= 0) || ac <= 0, "C01: a<=b and b<=c but a>c")
-	vv.Assert(!(ab <= 0 && bc <= 0 && (ab < 0 || bc < 0)) || ac < 0, "C01: a<=b<=c with a strict step but not a<c")
+	vv.Assert(transLe(ab, bc, ac), "C01: a<=b and b<=c but a>c")
+	vv.Assert(transLt(ab, bc, ac), "C01: a<=b<=c with a strict step but not a<c")
+}
+
+// hasPkgrel: an alpm version carries an explicit pkgrel iff it contains a '-' (vercmp splits
+// [epoch:]pkgver[-pkgrel] at the last hyphen; pkgver itself cannot contain one).
+func hasHyphen(s string) bool {
+	for i := 0; i < len(s); i++ {
+		if s[i] == '-' {
+			return true
+		}
+	}
+	return false
+}
+
+func c01AlpmMixedPkgrel(eco, a, b, c string) bool {
+	if eco != "alpm" {
+		return false
+	}
+	ha, hb, hc := hasHyphen(a), hasHyphen(b), hasHyphen(c)
+	return ha != hb || hb != hc
+}
+
+// vxAccept reaches its assertion iff the version parser accepts some content of the template.
+func vxAccept[V univers.Version[V], VR univers.VersionRange[V]](e univers.Ecosystem[V, VR], a string) {
+	_, ea := e.NewVersion(a)
+	vv.Assume(ea == nil)
+	vv.Assert(true, "accepted")
 }
